@@ -1163,7 +1163,7 @@ class Expr:
             return self.operands[1]
         elif self.kind == "constant":
             return self.operands[1].get_type()
-        elif self.kind in {"lt", "le", "gt", "ge", "eq", "ne", "logical_and", "logical_or", "logical_xor", "is_finite"}:
+        elif self.kind in {"lt", "le", "gt", "ge", "eq", "ne", "logical_and", "logical_or", "logical_xor", "logical_not", "is_finite"}:
             return Type.fromobject(self.context, "boolean")
         elif self.kind in {
             "positive",
@@ -1191,7 +1191,6 @@ class Expr:
             "expm1",
             "ceil",
             "floor",
-            "logical_not",
             "sign",
             "conjugate",
             "asin_acos_kernel",
